@@ -695,6 +695,10 @@ def name_reuse(rec):
             steps = [('grammar named like a rule of the base', 'grammar %s.Item\nstart = "o"*\n' % a),
                      ('grammar named like a class of the base', 'grammar %s.Pt\nstart = "o"*\n' % a),
                      ('grammar named like an inherited rule of the extension', 'grammar %s.Word\nstart = "o"*\n' % b),
+                     # ... and names that pass THROUGH a rule / class name two or more components deeper (the
+                     # packages in between are placeholders made on the way)
+                     ('grammar two levels below a rule name of the extension', 'grammar %s.Item.deep.leaf\nstart = "o"*\n' % b),
+                     ('grammar one level below a rule name nobody has used yet', 'grammar %s.Word.sub\nstart = "o"*\n' % a),
                      ('base name re-used', REUSE_OTHER.format(A=a)),
                      ('extension name re-used', 'grammar %s\nstart = "q"*\nItem = "q"\n' % b),
                      ('base name re-used by an extension of the old extension name', 'grammar %s extends %s\nItem = "z"\n' % (a, b))]
@@ -713,7 +717,8 @@ def name_reuse(rec):
                                       dict(kind='c18', mode='name-reuse', dotted=dotted, step=what, module='extension' if g is gb else 'base',
                                            entry=e, text_repr=repr(t)), want, got)
         finally:
-            for n in (a, b, a.rsplit('.', 1)[0], a + '.Item', a + '.Pt', b + '.Word'):
+            for n in (a, b, a.rsplit('.', 1)[0], a + '.Item', a + '.Pt', b + '.Word', b + '.Item', b + '.Item.deep', b + '.Item.deep.leaf',
+                      a + '.Word', a + '.Word.sub'):
                 sys.modules.pop(n, None)
 
 
